@@ -2,6 +2,7 @@
   Instantiation of Props/C17c.lean (print commands at byte level) at the generated lexer tables, and an evaluated example.
 -/
 import SoyVerif.Props.C17c
+import SoyVerif.Props.C17d
 import SoyVerif.Inst.C17b
 
 namespace SoyVerif.Inst.C17c
@@ -98,5 +99,22 @@ theorem print_cmd_file_injective (ff : UInt64 → Bytes) (pf : Bytes → Option 
 example : ∃ pos e' ds', parseSource pf0 (printPrint ff0 exArg exDirs) = .ok [Node.print pos e' ds'] ∧
     erase e' = erase exArg ∧ ds'.map eraseDir = exDirs.map eraseDir :=
   print_cmd_file_roundtrip ff0 pf0 exArg exDirs exCmd_ok exCmd_canon
+
+open SoyVerif.Props.C15c (textOK textNodes)
+
+/-- `print_cmd_in_body_roundtrip` without table hypotheses -/
+theorem print_cmd_in_body_roundtrip (ff : UInt64 → Bytes) (pf : Bytes → Option UInt64) (t1 t2 : Bytes)
+    (h1 : t1 = [] ∨ textOK t1) (h2 : t2 = [] ∨ textOK t2) (arg : Expr) (dirs : List Directive)
+    (hN : CmdOk ff arg dirs) (hC : CmdCanon ff pf arg dirs) :
+    ∃ p1 pos p2 e' ds', parseSource pf (t1 ++ printPrint ff arg dirs ++ t2) =
+        .ok (textNodes t1 p1 ++ [Node.print pos e' ds'] ++ textNodes t2 p2) ∧
+      erase e' = erase arg ∧ ds'.map eraseDir = dirs.map eraseDir :=
+  SoyVerif.Props.C17d.print_cmd_in_body_roundtrip ff pf lexTableOK tableOK t1 t2 h1 h2 arg dirs hN hC
+
+/-- non-vacuity: `Hi {$a ?: -1|truncate:$b ? 1 : 2,-3|id}!⏎` -/
+example : ∃ p1 pos p2 e' ds', parseSource pf0 ([72, 105, 32] ++ printPrint ff0 exArg exDirs ++ [33, 10]) =
+      .ok (textNodes [72, 105, 32] p1 ++ [Node.print pos e' ds'] ++ textNodes [33, 10] p2) ∧
+    erase e' = erase exArg ∧ ds'.map eraseDir = exDirs.map eraseDir :=
+  print_cmd_in_body_roundtrip ff0 pf0 _ _ (Or.inr (by decide)) (Or.inr (by decide)) exArg exDirs exCmd_ok exCmd_canon
 
 end SoyVerif.Inst.C17c
